@@ -30,4 +30,26 @@ static inline void vdeque_pop_front(vdeque* d) {
   __CPROVER_assume(d->head < d->tail); /* undefined behaviour is reported, not continued */
   d->head++;
 }
+static inline size_t vdeque_size(const vdeque* d) { return d->tail - d->head; }
+static inline struct Node* vdeque_back(const vdeque* d) {
+  __CPROVER_assert(d->head < d->tail, "back() on an empty sequence");
+  __CPROVER_assume(d->head < d->tail); /* undefined behaviour is reported, not continued */
+  return d->buf[d->tail - 1];
+}
+static inline void vdeque_pop_back(vdeque* d) {
+  __CPROVER_assert(d->head < d->tail, "pop_back() on an empty sequence");
+  __CPROVER_assume(d->head < d->tail); /* undefined behaviour is reported, not continued */
+  d->tail--;
+}
+/* the fill constructor `std::vector<Node*> v(count, value);` */
+static inline void vdeque_fill(vdeque* d, size_t count, struct Node* value) {
+  __CPROVER_assert(count <= VDEQUE_CAP, "sequence stub capacity suffices for the fill constructor");
+  __CPROVER_assume(count <= VDEQUE_CAP);
+  for (size_t i = 0; i < VDEQUE_CAP; i++) {
+    if (i < count) {
+      d->buf[i] = value;
+    }
+  }
+  d->tail = count;
+}
 #endif
